@@ -75,6 +75,8 @@ theorem insertU_nil_key (fuel : Nat) (n : WN) (a v : Bytes) (w : Nat) (d : Bool)
     split
     · exact EqI.mk' rfl rfl rfl wrapI64_zero.symm
     · exact EqI.mk' rfl rfl rfl rfl
+  | routing _ _ _ _ _ => simp only [insert, insertU]; exact EqI.mk' rfl rfl rfl wrapI64_zero.symm
+  | short _ _ _ _ _ => simp only [insert, insertU]; exact EqI.mk' rfl rfl rfl wrapI64_zero.symm
   | _ => simp only [insert, insertU]; exact EqI.mk' rfl rfl rfl rfl
 
 theorem insertU_short_eq_m (fuel : Nat) (sk h : Bytes) (c : WN) (d tc : Bool) (key : List Nib) (hk : key ≠ [])
@@ -85,6 +87,7 @@ theorem insertU_short_eq_m (fuel : Nat) (sk h : Bytes) (c : WN) (d tc : Bool) (k
        if p = sk.length then
          let r := insertU hasDb s fuel c (key.drop p) value
          { node := .short sk h r.node true tc, change := r.change, err := r.err, td := r.td }
+       else if p = key.length then { node := .short sk h c true tc, err := some .invalidKey }
        else
          match nibOf (sk.getD p 0), key[p]? with
          | some i1, some i2 =>
@@ -117,7 +120,8 @@ theorem insertU_short_split_m (fuel : Nat) (a s' K' : List Nib) (i1 i2 : Nib) (h
   rw [insertU_short_eq_m _ _ _ _ _ _ _ (by simp)]
   simp only [cp_split _ _ _ _ _ hne]
   have h1 : a.length ≠ ((a ++ i1 :: s').map nb).length := by simp
-  simp only [h1, if_false]
+  have h1' : a.length ≠ (a ++ i2 :: K').length := by simp
+  simp only [h1, h1', if_false]
   have h2 : ((a ++ i1 :: s').map nb).getD a.length 0 = nb i1 := by simp [List.getD]
   have h3 : (a ++ i2 :: K')[a.length]? = some i2 := by simp
   rw [h2, h3, nibOf_nb]
